@@ -110,6 +110,9 @@ func paramShapes(quick bool) []shape {
 			s = append(s, shape{"In{ignore-unexported;x []A `" + tag + "`}", []reflect.Type{st(emb(tyIn, `ignore-unexported:"true"`), sf("F", tyA, ""), sf("x", reflect.SliceOf(tyA), tag))}, false})
 		}
 		s = append(s, shape{"In{F []A `" + tag + "`}", []reflect.Type{st(emb(tyIn, ""), sf("F", reflect.SliceOf(tyA), tag))}, false})
+		if strings.Contains(tag, "group") {
+			s = append(s, shape{"In{F int `" + tag + "`}", []reflect.Type{st(emb(tyIn, ""), sf("F", tyInt, tag))}, false})
+		}
 		if !quick {
 			s = append(s, shape{"In{F NS `" + tag + "`}", []reflect.Type{st(emb(tyIn, ""), sf("F", tyNS, tag))}, false})
 			s = append(s, shape{"In{G{F []A `" + tag + "`}}", []reflect.Type{st(emb(tyIn, ""), sf("G", st(emb(tyIn, ""), sf("F", reflect.SliceOf(tyA), tag)), ""))}, false})
